@@ -89,6 +89,17 @@ def native_supplied(dname, D, shape):
     return {"inputs": {"dialect": dname, "shape": shape}, "observed": bad[:2], "violates": bool(bad)}
 
 
+def native_frame(D):
+    d = dict(D)
+    d["order"] = list(D["order"])
+    f1 = F.Feature(attributes={"ID": ["a"], "Note": ["n"]}, dialect=d, keep_order=True)
+    f2 = F.Feature(attributes={"ID": ["b"], "Zeta": ["z"], "Note": ["n"]}, dialect=d, keep_order=True)
+    s2_first = str(f2)
+    str(f1)
+    s2_again = str(F.Feature(attributes={"ID": ["b"], "Zeta": ["z"], "Note": ["n"]}, dialect=d, keep_order=True))
+    return {"inputs": "two features sharing one dialect dict, keys outside dialect['order']", "observed": [s2_first, s2_again, d["order"]], "violates": d != dict(D, order=list(D["order"])) or s2_first != s2_again}
+
+
 def _unit_supplied(styles):
     def unit(U):
         for dname, D in A.dialects():
@@ -110,9 +121,11 @@ def _unit_supplied(styles):
                         items.append((A.KEYS[ai], vals))
                     m = A.attrs_of(items)
                     d = dict(D)
-                    s = it.call(P._reconstruct, [m, d], {})
+                    d["order"] = list(D["order"])
+                    snap = {k: list(v) for k, v in m._d.items()}
+                    s = it.call(P._reconstruct, [m, d], {"keep_order": True})
                     q, d2 = it.call(P._split_keyvals, [s, d], {})
-                    ctx.stash.update(items=items, d=d, s=s)
+                    ctx.stash.update(items=items, d=d, s=s, m=m, snap=snap)
                     return q, d2
                 base = "C08.supplied[%s,%s]" % (dname, "x".join(map(str, shape)))
                 replay = lambda mm, dname=dname, D=D, shape=shape: native_supplied(dname, D, shape)
@@ -123,7 +136,10 @@ def _unit_supplied(styles):
                     st = p.ctx.stash
                     q, d2 = p.value
                     U.prove(base + ".inverse#p%d" % p.index, "_split_keyvals(_reconstruct(m, D), D) == (m, D): same keys and values in order, the supplied dialect object returned", [],
-                            z3.BoolVal(bool(A.same_items(q, st["items"]) and d2 is st["d"] and st["d"] == D)), {}, replay=replay)
+                            z3.BoolVal(bool(A.same_items(q, st["items"]) and d2 is st["d"])), {}, replay=replay)
+                    unchanged = st["d"] == D and list(st["m"]._d.keys()) == list(st["snap"].keys()) and all(len(st["m"]._d[k]) == len(st["snap"][k]) and all(a is b for a, b in zip(st["m"]._d[k], st["snap"][k])) for k in st["snap"])
+                    U.prove(base + ".frame#p%d" % p.index, "printing (keep_order=True, keys missing from dialect['order'] included) and parsing modify neither the dialect nor the mapping", [],
+                            z3.BoolVal(bool(unchanged)), {}, replay=lambda mm, D=D: native_frame(D))
                     if D["fmt"] == "gff3":
                         s = SStr.of(st["s"])
                         clean = all((isinstance(a, Lit) and not any(c in a.s for c in "\t\n\r")) or (not isinstance(a, Lit) and _allowed_fn(a) is not None and not any(_allowed_fn(a)(c, w) for c in "\t\n\r" for w in ("first", "last", "any")))
